@@ -34,6 +34,7 @@ fn gen_cfg(t: &mut Tape) -> Cfg {
             _ => Some(t.pick(500_000) as u64),
         },
         coins_per_byte: if t.flag() { 4310 } else { 1 },
+        by_literal: t.chance(1, 3),
         ..Cfg::default()
     }
 }
@@ -293,11 +294,18 @@ pub fn check_aimed(tape: &[u16], rc: &mut RCase) -> Result<(), Failure> {
     };
     let spent = if with_pay { q } else { 0 };
     let delta = t.pick(2 * 700 + 1) as i128 - 700;
-    let funding = step + spent + fee0 + delta;
+    // one time in five the aim is the other discrete edge of the loop: funds that cover the threshold while
+    // the fee still counts as zero and fall short once the real fee is known (a refusal is the only
+    // acceptable outcome there; a transaction must still satisfy every clause)
+    let short = t.chance(1, 5);
+    let funding = if short { q + t.pick((fee0.max(1)) as usize) as i128 } else { step + spent + fee0 + delta };
     if funding <= 0 {
         return Ok(());
     }
     let sc = mk(funding);
+    if short {
+        rc.label("aimed_at_funds_between_threshold_without_and_with_fee");
+    }
     rc.label(&format!("aimed_at_step:{}", step));
     let o = judge(&sc, &cfg, rc, "aimed_at_width_step")?;
     let key = hash64(&format!("{}{:?}{:?}", sc.source(), sc.store, cfg));
